@@ -243,3 +243,46 @@ def isoWhy (a b : Config) (sc : Scripts) : String :=
     else "?"
 
 end NA.F1
+
+/-! ## Phase shape of the route commands of a printed script (hypotheses of `NA.Route.routes_covered`) -/
+namespace NA.F1
+
+def isRouteCmd : Chg → Bool
+  | .route _ => true
+  | .noRoute _ => true
+  | .join (.noRoute _) (.route _) => true
+  | _ => false
+
+def isPlainNoRoute : Chg → Bool
+  | .noRoute _ => true
+  | _ => false
+
+/-- Checked on the route commands of a script, in their printed order: first only additions and replacements of
+a route by one to the SAME destination (one joined line); then only deletions of routes the target does not
+contain; after the first phase every target route is on the device. -/
+def routeShapeCheck (a b : Config) (script : List Chg) : Bool :=
+  let U := a.routes ++ b.routes
+  let dstOf := fun (t : String) => (U.find? (·.text == t)).map (·.dst)
+  let rc := script.filter isRouteCmd
+  let opsA := rc.takeWhile (fun c => !isPlainNoRoute c)
+  let opsB := rc.dropWhile (fun c => !isPlainNoRoute c)
+  let afterA := opsA.foldl (fun (s : List String) c =>
+    match c with
+    | .route t => s ++ [t]
+    | .join (.noRoute o) (.route n) => s.filter (· != o) ++ [n]
+    | _ => s) (a.routes.map (·.text))
+  opsA.all (fun c => match c with
+    | .route _ => true
+    | .join (.noRoute o) (.route n) => (dstOf o).isSome && dstOf o == dstOf n
+    | _ => false) &&
+  opsB.all (fun c => match c with
+    | .noRoute t => !(b.routes.map (·.text)).contains t
+    | _ => false) &&
+  (b.routes.isEmpty || b.routes.all (fun r => afterA.contains r.text))
+
+/-- Hypotheses of `asa_routes_covered_every_step` on the input (decidable form). -/
+def routesInputOK (a b : Config) : Bool :=
+  decide (a.routes.map (·.text)).Nodup &&
+  (a.routes ++ b.routes).all fun r => (a.routes ++ b.routes).all fun r' => !(r.text == r'.text) || r == r'
+
+end NA.F1
